@@ -5,6 +5,11 @@ import sys
 
 
 def main():
+    import logging
+    import threading
+
+    logging.disable(logging.CRITICAL)
+    threading.excepthook = lambda args: None
     mod = importlib.import_module(sys.argv[1])
     cases = json.load(open(sys.argv[2]))
     out = [mod.observe(c) for c in cases]
